@@ -1,12 +1,16 @@
 // Source stages pipe.Emit / pipe.Unfold for the lock-step harness (virtual clock).
 //
 // cfg: stage=Emit|Unfold mode=pure|lift|try cap=<n> freq=<virtual ms> fn=<1|2|3> seed=<n> fail=<a,b,..>
-//   Emit  : f(i) = 10*i+3 ; fail lists failing INDICES
-//   Unfold: fn=1: x+1, fn=2: 2x, fn=3: (3x+1) mod 1000003 ; fail lists failing VALUES (arguments);
-//           a failing call returns (0, error) like the rest of the harness family
-//   the failing set is honoured only when mode != pure (env.fails)
+//
+//	Emit  : f(i) = 10*i+3 ; fail lists failing INDICES
+//	Unfold: fn=1: x+1, fn=2: 2x, fn=3: (3x+1) mod 1000003 ; fail lists failing VALUES (arguments);
+//	        a failing call returns (0, error) like the rest of the harness family
+//	the failing set is honoured only when mode != pure (env.fails)
+//
 // moves: t<d> (advance the virtual clock), r0 (receive from out), r1 (receive from exx), x (cancel),
-//        z (census), v (call log of the user function: "(arg,ms,arg,ms,...)" with virtual ms since start)
+//
+//	z (census), v (call log of the user function: "(arg,ms,arg,ms,...)" with virtual ms since start)
+//
 // Mirrored in lean/Golem/Driver/Timed.lean and checks/C11.py.
 package lockstep
 
@@ -47,13 +51,22 @@ func init() {
 	special["Emit"] = func(ctx context.Context, e *env) ([]chan int, []outp) {
 		c := e.c
 		start := time.Now()
-		out, exx := pipe.Emit(ctx, c.cap, time.Duration(c.freq)*time.Millisecond, pipeF(c.mode, e.logged(start, emitVal)))
+		emit := emitVal
+		if c.work > 0 {
+			emit = func(x int) int { time.Sleep(time.Duration(c.work) * time.Millisecond); return emitVal(x) }
+		}
+		out, exx := pipe.Emit(ctx, c.cap, time.Duration(c.freq)*time.Millisecond, pipeF(c.mode, e.logged(start, emit)))
 		return nil, []outp{outInt(out), outErr(exx)}
 	}
 	special["Unfold"] = func(ctx context.Context, e *env) ([]chan int, []outp) {
 		c := e.c
 		start := time.Now()
-		step := func(x int) int { return stepVal(c.fn, x) }
+		step := func(x int) int {
+			if c.work > 0 { // a step function that takes time: a consumer that keeps up is parked on the channel when it returns
+				time.Sleep(time.Duration(c.work) * time.Millisecond)
+			}
+			return stepVal(c.fn, x)
+		}
 		out, exx := pipe.Unfold(ctx, c.cap, c.seed, pipeF(c.mode, e.logged(start, step)))
 		return nil, []outp{outInt(out), outErr(exx)}
 	}
